@@ -104,6 +104,18 @@ func (e *Engine) registerIntrinsics() {
 		return Eq(catBytes(sliceBytes(x)), catBytes(sliceBytes(y)))
 	}
 	in[rtPkg+".IteInt"] = func(r *Run, fr *Frame, cc *ssa.CallCommon, a []Value) Value { return Ite(a[0].(*Term), a[1].(*Term), a[2].(*Term)) }
+	in[rtPkg+".Hex"] = func(r *Run, fr *Frame, cc *ssa.CallCommon, a []Value) Value {
+		// lower-case hex of symbolic bytes without forking: nibble -> character by ite
+		bs := sliceBytes(a[0].(*SliceV))
+		out := &StrV{}
+		nib := func(n *Term) *Term {
+			return Ite(ULt(n, BVu(10, 4)), Add(ZExt(n, 8), BVu('0', 8)), Add(ZExt(n, 8), BVu('a'-10, 8)))
+		}
+		for _, b := range bs {
+			out.b = append(out.b, nib(Extract(b, 7, 4)), nib(Extract(b, 3, 0)))
+		}
+		return out
+	}
 	in[rtPkg+".Reach"] = func(r *Run, fr *Frame, cc *ssa.CallCommon, a []Value) Value {
 		label, _ := a[0].(*StrV).Concrete()
 		r.reach[label] = true
